@@ -4,7 +4,8 @@ Every check decides statements about calls that start from the initial package s
 programs only if NO exported function changes package-level state or hands package-level storage to its caller -
 including functions the check itself never runs (a `MinusOne` that edits a shared constant breaks `Random`).  The
 analysis executes the C15 call table (every exported function, all slice layouts) symbolically and collects stores
-into objects reachable from package-level variables and returned slices backed by them.  It is a function of the
+into objects reachable from package-level variables and returned slices backed by them, each with the label of the
+package-level object, so that a check can select the findings about state its own functions read.  It is a function of the
 tree only, so its result is stored under a key derived from the content of /repo's sources, the harnesses and the
 engine, and recomputed whenever any of them changes."""
 import hashlib, json, os, time, glob
@@ -59,10 +60,10 @@ def analysis():
                 continue
             for w in p.get('writes', []):
                 if w.get('tag') == 'Global':
-                    findings.append((meta.get(r.id, r.id), 'store into %s at %s' % (w.get('label'), w.get('at'))))
+                    findings.append((meta.get(r.id, r.id), 'store into %s at %s' % (w.get('label'), w.get('at')), w.get('label')))
             for k, v in p['obs'].items():
                 if k.startswith('ret') and isinstance(v, dict) and v.get('k') in ('slice', 'ptr') and v.get('tag') == 'Global' and not v.get('nil') and v.get('len', 1) != 0:
-                    findings.append((meta.get(r.id, r.id), 'returns package-level storage %s' % v.get('label')))
+                    findings.append((meta.get(r.id, r.id), 'returns package-level storage %s' % v.get('label'), v.get('label')))
     findings = sorted(set(findings))
     d = {'key': key, 'calls': len(jobs), 'paths': npaths, 'findings': findings[:40], 'errors': sorted(set(errors))[:10], 'secs': round(time.time() - t0, 1),
          'at': time.strftime('%Y-%m-%dT%H:%M:%S'), 'reused': False}
